@@ -25,7 +25,7 @@ from ..core import Ctx, key_of
 from ..dep import data, full
 from ..model import AnchorMissing, const_str, dotted, norm, own_nodes
 from ..order import order_table
-from .common import calls_named, facts_of, returns
+from .common import calls_named, facts_of, returns, maybe_true
 
 META = {
     "level": "other",
@@ -288,10 +288,17 @@ def run(ctx: Ctx):
 
     # ---------------------------------------------------------------- R05.1
     def families(fn, meth):
+        """calls on the resource's own limits / on the limits of every ancestor.  One walk that starts at the resource itself
+        (`node = self.property; while node: ...; node = node.parent`) covers both."""
         own, anc = [], []
         for (c, recv, loop) in _limit_calls(fn, meth):
             if loop is not None and _walks_parent_chain(loop):
                 anc.append(c)
+                var = norm(loop.test).replace(" is not None", "")
+                inits = [a for a in own_nodes(fn) if isinstance(a, (ast.Assign, ast.AnnAssign)) and a.value is not None
+                         and norm(a.targets[0] if isinstance(a, ast.Assign) else a.target) == var and not any(a is y for y in ast.walk(loop))]
+                if inits and all(norm(a.value) == "self.property" for a in inits):
+                    own.append(c)
             elif loop is None:
                 own.append(c)
         return own, anc
@@ -309,7 +316,12 @@ def run(ctx: Ctx):
         iff = next((p_ for p_ in _anc(c) if isinstance(p_, ast.If) and any(c is x for x in ast.walk(p_.test))), None)
         neg = iff is not None and any(isinstance(u, ast.UnaryOp) and isinstance(u.op, ast.Not) and any(c is x for x in ast.walk(u.operand))
                                       for u in ast.walk(iff.test))
-        ok = neg and any(isinstance(s_, ast.Return) and isinstance(s_.value, ast.Constant) and s_.value.value is False for s_ in iff.body)
+        # `return False`, or -- when the walk lives in a helper that N-inline folded back -- the result variable set to False and the walk left
+        ok = neg and any((isinstance(s_, ast.Return) and isinstance(s_.value, ast.Constant) and s_.value.value is False) or
+                         (isinstance(s_, ast.Assign) and isinstance(s_.value, ast.Constant) and s_.value.value is False
+                          and isinstance(s_.targets[0], ast.Name) and any(isinstance(r_, ast.Return) and isinstance(r_.value, ast.Name)
+                                                                          and r_.value.id == s_.targets[0].id for r_ in own_nodes(avail)))
+                         for s_ in iff.body)
         ctx.ob("R05.1", f"{avail.qual}: failing {norm(c)} refuses the slot", (avail, c), ok,
                "if not limits.ok(slot): return False" if ok else "a limit that refuses the slot does not make available() answer False",
                key=key_of("R05.1", avail, c, "refuses"))
@@ -326,7 +338,9 @@ def run(ctx: Ctx):
     facts = facts_of(avail)
     g = cfg_of(avail)
     for r in returns(avail):
-        if isinstance(r.value, ast.Constant) and r.value.value is True:
+        # (a literal `return True`; when the answer is a variable computed by the walk over the limit holders, the "refuses"
+        #  obligations above are the statement)
+        if maybe_true(r) and isinstance(r.value, ast.Constant):
             node = g.node_of(r)
             # facts: limits falsy or ok(...) true
             cl = facts.holds(node, lambda t, p: ("limits" in t and not p and ".ok(" not in t) or (p and "limits.ok(" in t) or
@@ -389,7 +403,7 @@ def run(ctx: Ctx):
     gok = cfg_of(L_ok)
     n_hi = 0
     for r in returns(L_ok):
-        if not (isinstance(r.value, ast.Constant) and r.value.value is True):
+        if not maybe_true(r):
             continue
         node = gok.node_of(r)
         fs = fok.at(node)
